@@ -268,20 +268,27 @@ fn pair<'a>(a: &'a TCell<'a>, b: &'a TCell<'a>) -> bool {
     linked
 }
 
+/// Deterministic uninterpreted stand-in for `<State as Add>::add` (non-commutative, so operand order is checked).
+/// The real operator's own contract is c09_state_add_is_componentwise; the obligation that needs the real IEEE
+/// adders (commutativity) is c09_connected_terminals_read_same_state, which does not stub it.
+fn stub_state_add(a: State, b: State) -> State {
+    State::new_raw(
+        fmix(T_ADD, a.position, b.position),
+        fmix(T_ADD ^ 1, a.velocity, b.velocity),
+        fmix(T_ADD ^ 2, a.acceleration, b.acceleration),
+    )
+}
+
 /// Spec of the state read, from the statement: mean of own and partner's latest states, or whichever exists.
-/// `/ 2.0` on `State` is the uninterpreted stand-in (the harnesses stub `<State as Div<f32>>::div` with it).
+/// `+` and `/ 2.0` on `State` are the uninterpreted stand-ins (the harnesses stub `<State as Add>::add` and
+/// `<State as Div<f32>>::div` with them), so the result is the expression tree div(add(own, partner), 2.0).
 fn spec_state_read(own: Option<Datum<State>>, partner: Option<Datum<State>>) -> Option<Datum<State>> {
     match (own, partner) {
         (None, None) => None,
         (Some(o), None) => Some(o),
         (None, Some(p)) => Some(p),
         (Some(o), Some(p)) => {
-            let sum = State::new_raw(
-                o.value.position + p.value.position,
-                o.value.velocity + p.value.velocity,
-                o.value.acceleration + p.value.acceleration,
-            );
-            Some(Datum::new(tmax(o.time, p.time), stub_state_div_f32(sum, 2.0)))
+            Some(Datum::new(tmax(o.time, p.time), stub_state_div_f32(stub_state_add(o.value, p.value), 2.0)))
         }
     }
 }
@@ -319,24 +326,28 @@ fn state_read_case(own_present: bool, partner_present: bool) {
 //@ob fn="<Terminal<'_,E> as Getter<State,E>>::get" at=src/lib.rs:565 prop=C09,C16 clause="own state absent, partner absent or terminal unlinked: Ok(None); no scratch slot read; terminal and partner bit-unchanged, no borrow leaked"
 #[kani::proof]
 #[kani::stub(<State as Div<f32>>::div, stub_state_div_f32)]
+#[kani::stub(<State as Add>::add, stub_state_add)]
 fn c09_state_read_neither() {
     state_read_case(false, false);
 }
 //@ob fn="<Terminal<'_,E> as Getter<State,E>>::get" at=src/lib.rs:565 prop=C09,C16 clause="own state present, partner's absent (or unlinked): exactly the own datum (time and value bits), independent of the unwritten second scratch slot; pure"
 #[kani::proof]
 #[kani::stub(<State as Div<f32>>::div, stub_state_div_f32)]
+#[kani::stub(<State as Add>::add, stub_state_add)]
 fn c09_state_read_own_only() {
     state_read_case(true, false);
 }
 //@ob fn="<Terminal<'_,E> as Getter<State,E>>::get" at=src/lib.rs:565 prop=C09,C16 clause="own state absent, linked partner's present: exactly the partner's datum (written to scratch slot 0, the only one read); pure"
 #[kani::proof]
 #[kani::stub(<State as Div<f32>>::div, stub_state_div_f32)]
+#[kani::stub(<State as Add>::add, stub_state_add)]
 fn c09_state_read_partner_only() {
     state_read_case(false, true);
 }
-//@ob fn="<Terminal<'_,E> as Getter<State,E>>::get" at=src/lib.rs:565 prop=C09,C16,C03 clause="both present: value == (own + partner) / 2.0 with component-wise f32 adds and State/f32 as an uninterpreted deterministic function (stub), timestamp == max of the two; pure"
+//@ob fn="<Terminal<'_,E> as Getter<State,E>>::get" at=src/lib.rs:565 prop=C09,C16,C03 clause="both present: value == (own + partner) / 2.0 as the expression tree div(add(own, partner), 2.0) over the crate's State operators (uninterpreted deterministic stand-ins, operand order checked; their own contracts: c09_state_add_is_componentwise, c09_state_div_f32_is_componentwise), timestamp == max of the two; pure"
 #[kani::proof]
 #[kani::stub(<State as Div<f32>>::div, stub_state_div_f32)]
+#[kani::stub(<State as Add>::add, stub_state_add)]
 fn c09_state_read_both_mean() {
     state_read_case(true, true);
 }
@@ -351,6 +362,19 @@ fn c09_state_div_f32_is_componentwise() {
     assert!(fsame(r.position, s.position / d));
     assert!(fsame(r.velocity, s.velocity / d));
     assert!(fsame(r.acceleration, s.acceleration / d));
+    reach!();
+}
+
+//@ob fn="<State as Add>::add" at=src/state.rs:143 clause="contract of the callee stubbed in the state-read obligations: State + State is the component-wise IEEE f32 addition (cvc5 FP theory; equal or both NaN)"
+#[kani::proof]
+#[kani::solver(cvc5)]
+fn c09_state_add_is_componentwise() {
+    let a: State = kani::any();
+    let b: State = kani::any();
+    let r = a + b;
+    assert!(fsame(r.position, a.position + b.position));
+    assert!(fsame(r.velocity, a.velocity + b.velocity));
+    assert!(fsame(r.acceleration, a.acceleration + b.acceleration));
     reach!();
 }
 
@@ -424,6 +448,7 @@ fn c09_command_read_newer_own_wins_ties() {
 //@ob fn="<Terminal<'_,E> as Getter<TerminalData,E>>::get" at=src/lib.rs:635 prop=C09,C03 clause="combined read, arbitrary slots, linked or not: never panics (both expects unreachable), Ok always; None iff the command read and the state read are both None; otherwise carries exactly the command and state that the other two getters report, and both timestamps (datum and TerminalData.time) are the state's time when there is a state, else the command's time; pure"
 #[kani::proof]
 #[kani::stub(<State as Div<f32>>::div, stub_state_div_f32)]
+#[kani::stub(<State as Add>::add, stub_state_add)]
 fn c09_terminal_data_read() {
     let a = fresh();
     let b = fresh();
